@@ -14,7 +14,8 @@ BOUNDS = ("ACE grammar dimensions (platform, version table, port_nr, protocol_nr
           "array generated from VERIF_SEED; per skeleton the sequence number, both base addresses, all port operands, a numeric "
           "protocol and the probe packet are symbolic over their full ranges, except: eq lists carry o0<o1<o2, range width <= 2, "
           "neq/gt/lt operands live in 1..8 of a universe shrunk to 1..8, free ports avoid named numbers when names are rendered; "
-          "standard ACEs: 5 forms x log.")
+          "standard ACEs: 5 forms x log; every port KEYWORD of all 16 (platform, version, tcp/udp) tables as source and "
+          "destination port x {eq, range} x trailing {none, log, ack log} x port_nr.")
 ASSUMPTIONS = ["protocol 0 / 'ip' stands for every IP protocol", "several TCP flag keywords match a packet carrying ANY of them",
                "log keywords do not change the packet set", "port operators only with tcp/udp (other combinations belong to C20)"]
 
@@ -72,6 +73,53 @@ def h_ace(ctx):
         if d[0] == "group":
             cl("rendered-group-" + side, r["desc"][side] != ("group", d[1]))
     cl.done()
+    return None
+
+
+NAMED_CFG = [(p, v, pr) for p in ("ios", "nxos") for v in ("0", "15.2", "16.9", "9.3") for pr in ("tcp", "udp")]
+
+
+def h_named(ctx):
+    """every port keyword the platform/version table offers, written as source or destination port of an ACE, followed by
+    nothing / a log keyword / a flag: the parsed port set is the keyword's number (oracle table), the trailing tokens stay
+    options, and the rendered line read independently matches exactly that port"""
+    from cisco_acl import Ace
+    from cisco_acl.port_name import PortName
+    from oracle import tables as tb
+    platform, version, proto = ctx.pick("cfg", NAMED_CFG)
+    side = ctx.pick("side", ["src", "dst"])
+    op = ctx.pick("op", ["eq", "range"])
+    tail = ctx.pick("tail", ["", "log"] + (["ack log"] if proto == "tcp" else []))
+    port_nr = ctx.pick("port_nr", [False, True])
+    names = sorted(PortName(protocol=proto, platform=platform, version=version).names())
+    p = ctx.fresh("p", 1, 65535)
+    cl = Claims(ctx)
+    for name in names:
+        nr = tb.ports(proto).get(name)
+        if nr is None:
+            cl(f"keyword-known-to-the-oracle[{name}]", True)
+            continue
+        port = f"eq {name}" if op == "eq" else (f"range {name} 65000" if nr < 65000 else f"range 1 {name}")
+        want = (lambda f, nr=nr: V(f) == nr) if op == "eq" else (lambda f, nr=nr: And_(V(f) >= min(nr, 65000 if nr < 65000 else 1), V(f) <= max(nr, 65000 if nr < 65000 else 1)))
+        line = f"permit {proto} any {port} any" if side == "src" else f"permit {proto} any any {port}"
+        if tail:
+            line += " " + tail
+        ace = Ace(line, platform=platform, version=version, port_nr=port_nr)
+        mine, other = (ace.srcport, ace.dstport) if side == "src" else (ace.dstport, ace.srcport)
+        cl(f"port-set[{name}]", Xor_(member(p, mine.ports), want(p)))
+        cl(f"other-side-empty[{name}]", bool(other.line))
+        cl(f"flags[{name}]", list(ace.option.flags) != [t for t in tail.split() if t == "ack"])
+        cl(f"logs[{name}]", list(ace.option.logs) != [t for t in tail.split() if t == "log"])
+        try:
+            r = rd.read_ace(ace.line, platform)
+        except rd.Reject as e:
+            ctx.observe("reject", str(e))
+            cl(f"rendered-text-valid-on-platform[{name}]", True)
+            continue
+        got = r["rule"].sport if side == "src" else r["rule"].dport
+        cl(f"rendered-port-set[{name}]", Xor_(got(p) if callable(got) else got, want(p)))
+    cl.done()
+    ctx.reach("named")
     return None
 
 
@@ -133,4 +181,6 @@ def specs(tier, seed, concrete=False):
     return [
         Spec("ace", h_ace, rows, goals=["parsed"], describe=f"extended ACE skeletons, covering array {info}"),
         Spec("standard", h_standard, [{"form": f} for f in STD_FORMS], goals=["parsed"], describe="standard ACEs on IOS"),
+        Spec("named", h_named, [{"cfg": list(c), "side": sd} for c in NAMED_CFG for sd in ("src", "dst")], goals=["named"],
+             describe="every port keyword of every platform/version table as a source/destination port, with trailing options"),
     ]
